@@ -85,7 +85,7 @@ type c18World struct {
 	verified map[string]bool
 	neg      map[string]time.Time
 	// probe unit only: what the stub resolver says about a bare name
-	probeTruth map[string]string // "real4","real6","real46","norecord","error"
+	probeTruth map[string]string // see c18ProbeOutcomes
 	probeCalls []string
 	focus      []string // recently touched spellings (generator aid only)
 }
@@ -181,11 +181,24 @@ func c18RR(name string, qtype uint16, ttl uint32, n int) dnsmessage.RR {
 		ip := net.ParseIP("2001:db8::100")
 		ip[15] = byte(1 + n)
 		return &dnsmessage.AAAA{Hdr: hdr, AAAA: ip}
-	default: // TXT stands in for "some other type"
-		hdr.Rrtype = dnsmessage.TypeTXT
+	case dnsmessage.TypeTXT:
 		return &dnsmessage.TXT{Hdr: hdr, Txt: []string{"c18"}}
+	case dnsmessage.TypeMX:
+		return &dnsmessage.MX{Hdr: hdr, Preference: 10, Mx: "mx.c18-elsewhere.test."}
+	case dnsmessage.TypePTR:
+		return &dnsmessage.PTR{Hdr: hdr, Ptr: "ptr.c18-elsewhere.test."}
+	case dnsmessage.TypeNS:
+		return &dnsmessage.NS{Hdr: hdr, Ns: "ns.c18-elsewhere.test."}
+	default: // any other type number: opaque RDATA (RFC 3597)
+		return &dnsmessage.RFC3597{Hdr: hdr, Rdata: "c018"}
 	}
 }
+
+// record types other than A/AAAA whose decimal number starts with "1" (A) or
+// "28" (AAAA), plus a few common ones: knowledge is per exact type.
+var c18OtherQtypes = []uint16{16, 15, 12, 10, 11, 13, 19, 100, 280, 281, 2, 65, 257}
+
+func c18IsAddrType(q uint16) bool { return q == dnsmessage.TypeA || q == dnsmessage.TypeAAAA }
 
 // insert applies one DNS answer through the production cache-insert path and
 // updates the model.
@@ -291,10 +304,15 @@ func (w *c18World) dnsState(name string, qtype uint16, now time.Time) (withAnswe
 	return
 }
 
-// anyDns: anything at all (any type, NODATA included, boundary included) that a
-// reader could call "resolved through dae and not yet expired".
+// anyDns: any A or AAAA knowledge (NODATA included, boundary included) that a
+// reader could call "resolved through dae and not yet expired". Knowledge is
+// per exact record type: a TXT/MX/... answer says nothing about the address the
+// connection goes to, so other types do not count.
 func (w *c18World) anyDns(name string, now time.Time) bool {
-	for _, es := range w.dns[name] {
+	for qt, es := range w.dns[name] {
+		if !c18IsAddrType(qt) {
+			continue
+		}
 		for _, e := range es {
 			if c18FreshAt(e.exp, now) != c18Expired {
 				return true
@@ -597,7 +615,7 @@ func (w *c18World) c18Expect(mode consts.DialMode, reserved bool, dst netip.Addr
 		}
 		return c18Verdict{Want: c18WantDst, Cell: cell, NonTrivia: true}
 	default:
-		// only the other family's record (or a NODATA / other-type answer, or an
+		// only the other family's record (or a NODATA answer for A/AAAA, or an
 		// entry exactly at its deadline, or a differently spelled verified form,
 		// or name:port of a known name): either is accepted.
 		return c18Verdict{Want: c18WantEither, Cell: "domain_unsettled", NonTrivia: true}
@@ -731,25 +749,33 @@ func c18Judge(v c18Verdict, got c18Got, dst netip.AddrPort, sn c18Sniff) (took s
 // ---------------------------------------------------------------------------
 // stub resolver for the probe unit
 
+// probeTruth values are two letters, the outcome of the A and of the AAAA lookup:
+// 'r' a record, 'n' answered without a record, 'e' the lookup failed.
+var c18ProbeOutcomes = []string{"rn", "nr", "rr", "nn", "ne", "en", "ee", "re", "er"}
+
 func (w *c18World) c18StubResolver() func(ctx context.Context, d netproxy.Dialer, dns netip.AddrPort, host string, network string, race bool) (*netutils.Ip46, error, error) {
 	return func(ctx context.Context, d netproxy.Dialer, dns netip.AddrPort, host string, network string, race bool) (*netutils.Ip46, error, error) {
 		w.probeCalls = append(w.probeCalls, host)
-		if strings.ContainsAny(host, ":[] ") {
-			e := fmt.Errorf("c18 stub: %q is not a host name", host)
-			return &netutils.Ip46{}, e, e
+		truth := "ee"
+		if !strings.ContainsAny(host, ":[] ") {
+			if t, ok := w.probeTruth[c18BareName(host)]; ok {
+				truth = t
+			}
 		}
-		switch w.probeTruth[c18BareName(host)] {
-		case "real4":
-			return &netutils.Ip46{Ip4: netip.MustParseAddr("192.0.2.77")}, nil, nil
-		case "real6":
-			return &netutils.Ip46{Ip6: netip.MustParseAddr("2001:db8::77")}, nil, nil
-		case "real46":
-			return &netutils.Ip46{Ip4: netip.MustParseAddr("192.0.2.77"), Ip6: netip.MustParseAddr("2001:db8::77")}, nil, nil
-		case "norecord":
-			return &netutils.Ip46{}, nil, nil
-		default:
-			e := fmt.Errorf("c18 stub: timeout")
-			return &netutils.Ip46{}, e, e
+		ip46 := &netutils.Ip46{}
+		var err4, err6 error
+		switch truth[0] {
+		case 'r':
+			ip46.Ip4 = netip.MustParseAddr("192.0.2.77")
+		case 'e':
+			err4 = fmt.Errorf("c18 stub: A lookup for %q timed out", host)
 		}
+		switch truth[1] {
+		case 'r':
+			ip46.Ip6 = netip.MustParseAddr("2001:db8::77")
+		case 'e':
+			err6 = fmt.Errorf("c18 stub: AAAA lookup for %q timed out", host)
+		}
+		return ip46, err4, err6
 	}
 }
